@@ -605,5 +605,6 @@ def rule_time(ctx):
 
 
 def run(ctx):
-    return [rule_mask(ctx), rule_roman(ctx), rule_serial(ctx),
-            rule_weekday(ctx), rule_time(ctx)]
+    S = ctx.soft
+    return [S(rule_mask, ctx), S(rule_roman, ctx), S(rule_serial, ctx),
+            S(rule_weekday, ctx), S(rule_time, ctx)]
